@@ -220,6 +220,18 @@ pub fn ident_cases(random : usize, seed : u64) -> Vec<Value>
             _ => { let mut r = r1.clone(); r.2.push("a".to_string()); r },                                        // extra command line
         };
         emit(format!("i{}.{}", seed, k), &r1, &r2, &mut out);
+        if k % 4 == 0
+        {   /* the same pair with one or two of its strings made long (lines of 255 .. 600 bytes: around any internal buffering of the
+               hashing), consistently in both rules - an injective renaming, so the expected answer is the same */
+            let la = ["q".repeat(255), "q".repeat(256), "q".repeat(257), "q".repeat(300), "q".repeat(600)][rng.below(5)].clone();
+            let lb = if rng.chance(1, 2) { "r".repeat(256 + rng.below(3)) } else { "b".to_string() };
+            let long = |r : &(Vec<String>, Vec<String>, Vec<String>)| -> (Vec<String>, Vec<String>, Vec<String>)
+            {
+                let f = |v : &Vec<String>| v.iter().map(|x| if x == "a" { la.clone() } else if x == "b" { lb.clone() } else { x.clone() }).collect::<Vec<String>>();
+                (f(&r.0), f(&r.1), f(&r.2))
+            };
+            emit(format!("i{}.{}L", seed, k), &long(&r1), &long(&r2), &mut out);
+        }
     }
     out
 }
